@@ -6,6 +6,7 @@ pub use crate::interface::verifier::CallCountVerifier;
 
 use std::future::Future;
 use std::pin::Pin;
+use std::sync::atomic::Ordering;
 use std::sync::Mutex;
 use std::sync::MutexGuard;
 use std::task::Context;
@@ -480,6 +481,14 @@ impl WhenCalledBuilder<'_> {
     /// `times``: // Optional. How many times the function should be called. If the value is not satisfied at the end of the test, the test will fail.
     pub fn will_execute(self, fake_pair: (FuncPtr, CallCountVerifier)) {
         let (fake_func, verifier) = fake_pair;
+
+        // The counter is a static that belongs to the `fake!` call site and outlives this
+        // injector. Start every installation from zero so that calls absorbed by an earlier
+        // installation built by the same line of source are not counted again.
+        if let CallCountVerifier::WithCount { counter, .. } = &verifier {
+            counter.store(0, Ordering::SeqCst);
+        }
+
         self.lib.verifiers.push(verifier);
         self.will_execute_raw(fake_func);
     }
